@@ -69,11 +69,23 @@ def map_scenario(sc):
         return addinfo[h][2] if h in addinfo else 1000 + h
     name2hid = {}        # a name is reused when a handler is re-added under a stopped handler's name
     gbind = {}           # handler goroutine / handleClose goroutine -> handler number (bound at its first stamp)
+    named = {}           # name -> all handler numbers that ever had it, in order
+    hc_taken = set()     # handler numbers whose handleClose goroutine is identified
+    cancelled_h = set()  # handlers whose own context is known to be cancelled (Stop called / loop ended)
     def hid(name, g=None, bind=False):
         if g is not None and g in gbind: return gbind[g]
         h = name2hid.get(name, -1)
         if bind and g is not None: gbind[g] = h
         return h
+    def hc_hid(name, g):
+        # a handleClose goroutine may run its first statement only after its handler has ended and the name was
+        # given to a successor: take the oldest handler of that name whose handleClose is still unidentified,
+        # preferring one whose context is known to be cancelled
+        if g in gbind: return gbind[g]
+        cands = [x for x in named.get(name, []) if x not in hc_taken]
+        pick = next((x for x in cands if x in cancelled_h), cands[0] if cands else name2hid.get(name, -1))
+        gbind[g] = pick; hc_taken.add(pick)
+        return pick
     rhret = {}; stopret = {}; closeret = {}
     for e in evs:
         k = e.get('k') or []
@@ -104,7 +116,7 @@ def map_scenario(sc):
         return None
     def do_add(e):
         k = e.get('k') or []
-        h = nadd[0]; name2hid[k[0]] = h
+        h = nadd[0]; name2hid[k[0]] = h; named.setdefault(k[0], []).append(h)
         nadd[0] += 1; maplen[0] += 1
         signalled = e['p'].endswith('signalled')
         if signalled and not FIXED_D14 and wpc[0] == 'pre':
@@ -123,7 +135,7 @@ def map_scenario(sc):
             else: lab('LRecv %d' % h); recv_late.add(k[1])
             continue
         if p.startswith('router.handler.handleclose.'):
-            if p.endswith('.enter'): hid(k[0], g, bind=True)
+            if p.endswith('.enter'): hc_hid(k[0], g)
             continue
         if p.startswith('api.'):
             w = p[4:]
@@ -148,7 +160,7 @@ def map_scenario(sc):
             elif w == 'started_obs':
                 lab('LObsStarted %d' % int(k[0])); m.hist.append(('AStartedObs %d' % int(k[0]), e))
             elif w == 'stop.call':
-                call[g] = ('stop', int(k[0])); lab('LStopCall %d %d' % (int(k[0]), int(k[1])))
+                call[g] = ('stop', int(k[0])); lab('LStopCall %d %d' % (int(k[0]), int(k[1]))); cancelled_h.add(int(k[1]))
                 m.hist.append(('AStopCall %d %d' % (int(k[0]), int(k[1])), e))
             elif w == 'stop.ret':
                 call.pop(g, None); m.hist.append(('AStopRet %d %s' % (int(k[0]), STOPRES[k[1]]), e))
@@ -278,7 +290,7 @@ def map_scenario(sc):
         elif w == 'loop.recv':
             pass        # see router.handler.received (same point, carries the message UUID)
         elif w == 'loop.range_done':
-            h = hid(k[0], g, bind=True); lab('LLoop %d' % h); loop_pc[h] = 'pubclose'
+            h = hid(k[0], g, bind=True); lab('LLoop %d' % h); loop_pc[h] = 'pubclose'; cancelled_h.add(h)
         elif w == 'loop.pub_close':
             h = hid(k[0], g, bind=True)
             if pub_of(h) >= 0: pending_pubclose[g] = h     # takes effect at the publisher's own Close stamp (under its mutex)
@@ -292,11 +304,11 @@ def map_scenario(sc):
         elif w == 'loop.close_stopped':
             lab('LLoop %d' % hid(k[0], g, bind=True))
         elif w == 'hc.closing':
-            pending_hc[g] = hid(k[0], g, bind=True)
+            pending_hc[g] = hc_hid(k[0], g)
         elif w == 'hc.ctx':
             # select took ctx.Done; then the non-blocking poll of routersCloseCh (D6 repair).  Poll saw it open: the
             # model step goes here (as early as the log allows); saw it closed: at the subscriber's Close stamp
-            h = hid(k[0], g, bind=True)
+            h = hc_hid(k[0], g)
             nxt = next((x for x in evs[idx + 1:] if x['g'] == g and x['p'].startswith('router.handler.handleclose.') and
                         x['p'].rsplit('.', 1)[1] in ('closing_after_ctx', 'not_closing')), None)
             if nxt is None: pass
